@@ -119,7 +119,7 @@ theorem termL_not (f : Nat) (Y : List Char) : termL f ('n' :: 'o' :: 't' :: ' ' 
       have hop : operand (f + 1) ('n' :: 'o' :: 't' :: ' ' :: Y) = none := by
         refine operand_fail f _ (skip_cons_solid _ ⟨by decide, by decide⟩)
           (lexNegative_of_head _ ⟨by decide, by decide⟩ (by decide)) ?_ ?_ ?_
-        · simp [lexPre, stripPrefix, lexInteger, isNonzeroDigit, lexSymbol, startsNegation, isWs]
+        · simp [lexPre, stripPrefix, lexInteger, isNonzeroDigit, lexSymbol, startsNotWord, startsNegation, isWs, isIdChar]
         · simp [lexVariable]
         · intro r e; injection e with e1 _; exact absurd e1 (by decide)
       simp only [seqT, hop]
